@@ -8,11 +8,11 @@ package main
 //   stream "conc"         (C20): query goroutines against a per-height oracle while blocks execute
 
 import (
-	"encoding/base64"
-	aolkeeper "github.com/medibloc/panacea-core/v2/x/aol/keeper"
 	"bytes"
+	"encoding/base64"
 	"encoding/json"
 	"fmt"
+	aolkeeper "github.com/medibloc/panacea-core/v2/x/aol/keeper"
 	"math/rand"
 	"os"
 	"runtime"
@@ -23,7 +23,9 @@ import (
 	dbm "github.com/cometbft/cometbft-db"
 	abci "github.com/cometbft/cometbft/abci/types"
 	sdk "github.com/cosmos/cosmos-sdk/types"
+	"github.com/cosmos/cosmos-sdk/types/module"
 	upgradetypes "github.com/cosmos/cosmos-sdk/x/upgrade/types"
+	"github.com/medibloc/panacea-core/v2/app"
 	aoltypes "github.com/medibloc/panacea-core/v2/x/aol/types"
 	didtypes "github.com/medibloc/panacea-core/v2/x/did/types"
 	pnfttypes "github.com/medibloc/panacea-core/v2/x/pnft/types"
@@ -162,6 +164,7 @@ func init() {
 		}
 		monC10RestartAfterParamChange(s)
 		monC10RestartInsideUpgradeBlock(s)
+		monC10RolledBackHandlerEffects(s)
 		for h := 0; h < n; h++ {
 			accts := rtAccts()
 			dbA, dbB := dbm.NewMemDB(), dbm.NewMemDB()
@@ -309,8 +312,8 @@ func init() {
 				}
 				d0 := docWith(k1, "")
 				create := &didtypes.MsgCreateDIDRequest{Did: did, Document: d0, VerificationMethodId: vmID, Signature: sign(k1, d0, 0), FromAddress: A.Bech()}
-				rot := docWith(k2, "")           // rotate k1 -> k2, signed by k1 at sequence 0
-				keep := docWith(k1, "https://a") // competing update keeping k1, signed by k1 at sequence 0
+				rot := docWith(k2, "")             // rotate k1 -> k2, signed by k1 at sequence 0
+				keep := docWith(k1, "https://a")   // competing update keeping k1, signed by k1 at sequence 0
 				follow := docWith(k2, "https://b") // signed by k2 at sequence 1: valid only after the rotation
 				mRot := &didtypes.MsgUpdateDIDRequest{Did: did, Document: rot, VerificationMethodId: vmID, Signature: sign(k1, rot, 0), FromAddress: A.Bech()}
 				mKeep := &didtypes.MsgUpdateDIDRequest{Did: did, Document: keep, VerificationMethodId: vmID, Signature: sign(k1, keep, 0), FromAddress: A.Bech()}
@@ -434,7 +437,7 @@ func init() {
 				t = t.Add(5 * time.Second)
 				runBlock(a, t, genTxs(a, accts, rng, 3))
 			}
-			planHeight := a.Height + 2 // scheduled inside block a.Height+1: the new binary must meet the plan at the very next block
+			planHeight := a.Height + 2                          // scheduled inside block a.Height+1: the new binary must meet the plan at the very next block
 			restartAt := []int{1, 0, 2, 3}[(h+rng.Intn(2)*0)%4] // every kind in turn; 0: none, 1: before, 2: at (after the upgrade block committed), 3: after
 			s.Inflight(fmt.Sprintf("mon.c19.upgrade history=%d name=v2.2.1 height=%d restart=%d", h, planHeight, restartAt))
 			s.Emit(fmt.Sprintf("mon.c19.upgrade history=%d name=v2.2.1 height=%d restart=%d", h, planHeight, restartAt), func() (ans string) {
@@ -447,64 +450,73 @@ func init() {
 					}
 				}()
 				return func() string {
-				a.Begin(t.Add(time.Second))
-				if err := a.App.UpgradeKeeper.ScheduleUpgrade(a.DeliverCtx(), upgradetypes.Plan{Name: "v2.2.1", Height: planHeight}); err != nil {
-					return "fail #schedule " + err.Error()
-				}
-				a.End()
-				a.Commit()
-				t = t.Add(time.Second)
-				before := ""
-				for a.Height < planHeight+2 {
-					t = t.Add(5 * time.Second)
-					if a.Height+1 == planHeight {
-						before = dumpsOf(a, a.QueryCtx())
-						if restartAt == 1 {
-							// what an operator's node does: the old binary halts in front of the upgrade block and leaves
-							// upgrade-info.json in its home; the binary started next reads it and applies the release's
-							// store upgrades before loading the stores
-							if err := a.App.UpgradeKeeper.DumpUpgradeInfoToDisk(planHeight, upgradetypes.Plan{Name: "v2.2.1", Height: planHeight}); err != nil {
-								return "fail #dump-upgrade-info " + err.Error()
+					a.Begin(t.Add(time.Second))
+					if err := a.App.UpgradeKeeper.ScheduleUpgrade(a.DeliverCtx(), upgradetypes.Plan{Name: "v2.2.1", Height: planHeight}); err != nil {
+						return "fail #schedule " + err.Error()
+					}
+					// the version map of a node that came through the releases in order still has the records of modules that later
+					// releases removed (x/upgrade never prunes): every store a descriptor deletes had a module once
+					stale := module.VersionMap{}
+					for _, u := range app.Upgrades {
+						for _, d := range u.StoreUpgrades.Deleted {
+							stale[d] = 1
+						}
+					}
+					a.App.UpgradeKeeper.SetModuleVersionMap(a.DeliverCtx(), stale)
+					a.End()
+					a.Commit()
+					t = t.Add(time.Second)
+					before := ""
+					for a.Height < planHeight+2 {
+						t = t.Add(5 * time.Second)
+						if a.Height+1 == planHeight {
+							before = dumpsOf(a, a.QueryCtx())
+							if restartAt == 1 {
+								// what an operator's node does: the old binary halts in front of the upgrade block and leaves
+								// upgrade-info.json in its home; the binary started next reads it and applies the release's
+								// store upgrades before loading the stores
+								if err := a.App.UpgradeKeeper.DumpUpgradeInfoToDisk(planHeight, upgradetypes.Plan{Name: "v2.2.1", Height: planHeight}); err != nil {
+									return "fail #dump-upgrade-info " + err.Error()
+								}
+								a = reopen(a)
 							}
+						}
+						var txs [][]byte
+						if a.Height+1 != planHeight {
+							txs = genTxs(a, accts, rng, 2)
+						}
+						runBlock(a, t, txs) // a panic here (e.g. "UPGRADE NEEDED", missing handler) is caught by guard
+						if a.Height == planHeight {
+							if dumpsOf(a, a.QueryCtx()) != before {
+								return "fail #custom-data-changed-by-upgrade"
+							}
+							ctx := a.QueryCtx()
+							if a.App.UpgradeKeeper.GetDoneHeight(ctx, "v2.2.1") != planHeight {
+								return "fail #done-height-not-recorded"
+							}
+							vm := a.App.UpgradeKeeper.GetModuleVersionMap(ctx)
+							for _, m := range []string{"aol", "did", "burn", "pnft"} {
+								if vm[m] != 1 {
+									return fmt.Sprintf("fail #module-version %s=%d", m, vm[m])
+								}
+							}
+							if restartAt == 2 {
+								hash := a.App.LastCommitID().Hash
+								a = reopen(a)
+								if !bytes.Equal(a.App.LastCommitID().Hash, hash) || dumpsOf(a, a.QueryCtx()) != before {
+									return "fail #restart-at-upgrade-height"
+								}
+							}
+						}
+						if a.Height == planHeight+1 && restartAt == 3 {
+							d := dumpsOf(a, a.QueryCtx())
 							a = reopen(a)
-						}
-					}
-					var txs [][]byte
-					if a.Height+1 != planHeight {
-						txs = genTxs(a, accts, rng, 2)
-					}
-					runBlock(a, t, txs) // a panic here (e.g. "UPGRADE NEEDED", missing handler) is caught by guard
-					if a.Height == planHeight {
-						if dumpsOf(a, a.QueryCtx()) != before {
-							return "fail #custom-data-changed-by-upgrade"
-						}
-						ctx := a.QueryCtx()
-						if a.App.UpgradeKeeper.GetDoneHeight(ctx, "v2.2.1") != planHeight {
-							return "fail #done-height-not-recorded"
-						}
-						vm := a.App.UpgradeKeeper.GetModuleVersionMap(ctx)
-						for _, m := range []string{"aol", "did", "burn", "pnft"} {
-							if vm[m] != 1 {
-								return fmt.Sprintf("fail #module-version %s=%d", m, vm[m])
-							}
-						}
-						if restartAt == 2 {
-							hash := a.App.LastCommitID().Hash
-							a = reopen(a)
-							if !bytes.Equal(a.App.LastCommitID().Hash, hash) || dumpsOf(a, a.QueryCtx()) != before {
-								return "fail #restart-at-upgrade-height"
+							if dumpsOf(a, a.QueryCtx()) != d {
+								return "fail #restart-after-upgrade"
 							}
 						}
 					}
-					if a.Height == planHeight+1 && restartAt == 3 {
-						d := dumpsOf(a, a.QueryCtx())
-						a = reopen(a)
-						if dumpsOf(a, a.QueryCtx()) != d {
-							return "fail #restart-after-upgrade"
-						}
-					}
-				}
-				return "pass"
+					return "pass"
 				}()
 			}())
 		}
